@@ -537,3 +537,19 @@ func describedIn(info *spec.EMsg, g *GV) *GV {
 	}
 	return g
 }
+
+// BranchName returns the active branch of a oneof holder value ("" when nil or not a holder).
+func (g *GV) BranchName() string {
+	if g == nil || g.K != "o" || g.Nil || len(g.Keys) == 0 {
+		return ""
+	}
+	return g.Keys[0]
+}
+
+// Elems0 returns the payload of a oneof holder value (nil when unset).
+func (g *GV) Elems0() *GV {
+	if g == nil || g.K != "o" || g.Nil || len(g.Elems) == 0 {
+		return nil
+	}
+	return g.Elems[0]
+}
